@@ -36,6 +36,9 @@ def dump_str(st):
                     for n in sorted(st))
 
 
+DBG = [None]      # path of the harness built with debug assertions and overflow checks (set by run)
+
+
 def check_journal(args):
     idx, seed, tier = args
     r = random.Random(seed * 1000 + idx)
@@ -93,6 +96,23 @@ def check_journal(args):
         except subprocess.TimeoutExpired:
             out["incomplete"] = True          # too slow right now: nothing judged for this journal
             return out
+        # the same cuts once more through the build with debug assertions and overflow checks on: it must behave like the
+        # release build (an assertion tripped by a torn tail is a recovery that panics)
+        if DBG[0]:
+            try:
+                bd = [b for part in pmap(lambda a: J.cuts_impl(jf, f + ".d%d" % a[0], a[1], fjv=DBG[0]), list(enumerate(ichunks)), workers=4) for b in part]
+            except subprocess.TimeoutExpired:
+                bd = None
+            if bd is not None:
+                out["dbg_cuts"] = len(bd)
+                if len(bd) != len(cl):
+                    idx = min(len(bd), len(cl) - 1)
+                    out["problems"].append(("cut-debug-assertions", cl[idx][0], cl[idx][1], ["the build with debug assertions stopped after %d of %d cuts (panic / abort)" % (len(bd), len(cl))], [], []))
+                    return out
+                for (m, pad), li, ld in zip(cl, bi, bd):
+                    if li != ld:
+                        out["problems"].append(("cut-debug-assertions", m, pad, ld[-3:], li[-3:], ["release build"]))
+                        return out
         if len(bi) != len(cl) or len(bm) != len(cl):
             out["problems"].append(("cut-run", -1, 0, ["impl blocks %d" % len(bi)], ["model blocks %d" % len(bm)], [str(len(cl))]))
             return out
@@ -180,6 +200,8 @@ def torn_write_runs(rep, seed, n):
 
 def run(rep, tier, seed, build):
     obl, dis, problems = proof_audit("props/C03.v", THEOREMS, build["coq"])
+    from common import build_dbg
+    DBG[0] = build_dbg()
     njournals = 12 if tier == "quick" else 64
     results = pmap(check_journal, [(i, seed, tier) for i in range(njournals)])
     cuts = sum(r["cuts"] for r in results)
@@ -213,7 +235,9 @@ def run(rep, tier, seed, build):
              "and by the extracted Reader.v; non-trivial = journal with >= 2 batches, distinct by (bytes, batches)",
         samples=[r["sample"] for r in results if r.get("sample")][:3],
         entry_kind_histogram={str(k): v for k, v in kinds.items()},
-        reopen_runs=reop, torn_write_runs=torn_done, proof_problems=problems)
+        reopen_runs=reop, torn_write_runs=torn_done, proof_problems=problems,
+        cuts_repeated_with_debug_assertions=sum(r.get("dbg_cuts", 0) for r in results),
+        debug_assertions_build=("ok" if DBG[0] else "did not build"))
     rep.assumptions = ["a torn write leaves a prefix of the intended bytes followed by zeros or EOF (journal files are "
                        "created fresh and pre-allocated with zeros)", "xxh3 and lz4 are uninterpreted in the theorems"]
 
